@@ -207,7 +207,8 @@ impl Ctx {
 }
 
 fn first_line(s: &str) -> String {
-    s.lines().next().unwrap_or("").chars().take(160).collect()
+    // numbers are replaced so that one defect yields one reason
+    s.lines().next().unwrap_or("").chars().take(160).map(|c| if c.is_ascii_digit() { '#' } else { c }).collect()
 }
 
 fn fix_prefix(mut x: Vec<u8>) -> Vec<u8> {
@@ -330,6 +331,14 @@ fn mutate(ctx: &mut Ctx, s: &[u8], cells: &[(usize, usize, u8, usize)], has_valu
         let mut x = s.to_vec();
         x[8] = 0x80;
         ctx.judge_frame(&x, "vlen-huge", false);
+        // the value cut out altogether (valueLen = 0, prefix adjusted)
+        let vl = u32::from_le_bytes([s[5], s[6], s[7], s[8]]) as usize;
+        if 9 + vl <= n {
+            let mut x = s[..5].to_vec();
+            x.extend_from_slice(&[0, 0, 0, 0]);
+            x.extend_from_slice(&s[9 + vl..]);
+            ctx.judge_frame(&fix_prefix(x), "value-empty", true);
+        }
     }
     // every single byte from the kind on
     for p in 4..n {
